@@ -19,7 +19,7 @@ from .. import rngseam
 from pybrops.core.random import sampling
 
 PROP = "C17"
-RUNS = {"quick": 60000, "thorough": 1500000}
+RUNS = {"quick": 150000, "thorough": 3000000}
 WALL = {"quick": 150, "thorough": 1500}
 RULE = ("scenario = one call of stochastic_universal_sampling / tiled_choice / axis_shuffle / outcross_shuffle with "
         "generated weights (zeros, ties, magnitudes 1e-300..1e300), sizes/shapes, option sets, cross tables, generator kind "
@@ -118,7 +118,7 @@ def generate(R, tier):
     else:
         ncross, npar = R.randint(1, 5), R.randint(1, 4)
         nind = R.randint(1, 6)
-        style = R.choice(["random", "tiled", "blocks", "allsame"])
+        style = R.choice(["random", "tiled", "blocks", "allsame", "pairs", "pairs"])
         if style == "random":
             tab = [[R.randrange(nind) for _ in range(npar)] for _ in range(ncross)]
         elif style == "tiled":
@@ -127,6 +127,10 @@ def generate(R, tier):
         elif style == "blocks":
             flat = sorted(i % nind for i in range(ncross * npar))
             tab = [flat[r * npar:(r + 1) * npar] for r in range(ncross)]
+        elif style == "pairs":
+            # every cross starts as one individual paired with itself, few individuals, some used in several crosses
+            who = [R.randrange(max(2, min(nind, 4))) for _ in range(ncross)]
+            tab = [[w] * npar for w in who]
         else:
             tab = [[0] * npar for _ in range(ncross)]
         sc.update(table=tab, tstyle=style, layout=R.choice(["C", "C", "F", "view"]))
